@@ -128,3 +128,18 @@ def c16_self_named_key(case, result):
         return False
     named_self = any(k == 'self' for k, _ in case.get('base', [])) or any(k == 'self' for k, _ in case.get('kw', []))
     return named_self and 'TypeError' in (result.get('viol') or '') and 'TypeError' in str(result.get('obs'))
+
+def c18_reserved_parameter_names(case, result):
+    # the wrapped function has a parameter literally named axis / self / function and the (valid) call passes it BY KEYWORD:
+    # loops pops `axis` (f silently gets its default), wrapper.__call__(self, ...) cannot take `self`, getcallargs(function, ...)
+    # cannot take `function`
+    names = case.get('pnames') or []
+    passed = [k for k, _ in case.get('kw', [])]
+    viol = result.get('viol') or ''
+    if not viol:
+        return False
+    if case.get('kind') == 'stack':
+        return ('self' in names and 'self' in passed) or ('axis' in names and 'axis' in passed and 'loop' in case.get('decos', []))
+    if case.get('kind') == 'bind':
+        return 'function' in names and 'function' in passed
+    return False
